@@ -280,6 +280,52 @@ Proof.
     rewrite <- Hmv at 1. rewrite kind_at_map_mv; [apply Hk0; exact HqD | exact HD | exact Hall | exact HqD | discriminate].
 Qed.
 
+(* ... and nothing is left at or below the old name *)
+Lemma moved_source_gone : forall t0 s d r, s <> [] ->
+  (forall e, In e t0 -> under d (fst e) = false) -> under s d = false -> under d s = false ->
+  kind_at (map (move_entry s d) t0) (s ++ r) = None.
+Proof.
+  intros t0 s d r Hs Hall Hsd Hds. rewrite kind_at_cons by (destruct s; [congruence | discriminate]).
+  destruct (assoc (map (move_entry s d) t0) (s ++ r)) as [k|] eqn:E; [|reflexivity]. exfalso.
+  apply assoc_in in E. apply in_map_iff in E. destruct E as [[p k0] [Heq Hin]]. rewrite move_entry_mv in Heq. cbn [fst snd] in Heq.
+  inversion Heq as [[Hp Hk]]. clear Heq. unfold mv in Hp. destruct (strip s p) as [r'|] eqn:Es.
+  - symmetry in Hp. destruct (app_eq_prefix s d r r' Hp); congruence.
+  - apply strip_none in Es. subst p. rewrite under_app in Es. discriminate.
+Qed.
+
+Theorem rename_source_gone : forall t s d t', wf t -> p_rename t s d = Some (TOk, t') -> s <> d ->
+  forall r, kind_at t' (s ++ r) = None.
+Proof.
+  intros t s d t' Hwf H Hsd r. unfold p_rename in H.
+  destruct s as [|s0 s]; [discriminate|]. destruct d as [|d0 d]; [discriminate|].
+  set (S := s0 :: s) in *. set (D := d0 :: d) in *.
+  assert (HD : D <> []) by discriminate.
+  assert (Hnd : kind_at t D <> Some KDir /\ sys_rename t S D = Some (TOk, t')).
+  { destruct (lstat t D) as [[| |]| | |] eqn:El; try discriminate.
+    - destruct (lstat t S); discriminate.
+    - split; [|exact H]. intros Hk. rewrite (lstat_exists t D KDir Hwf Hk) in El. discriminate.
+    - split; [|exact H]. intros Hk. rewrite (lstat_exists t D KDir Hwf Hk) in El. discriminate.
+    - split; [|exact H]. intros Hk. rewrite (lstat_exists t D KDir Hwf Hk) in El. discriminate.
+    - split; [|exact H]. intros Hk. rewrite (lstat_exists t D KDir Hwf Hk) in El. discriminate. }
+  destruct Hnd as [HkD Hsys]. clear H. unfold sys_rename in Hsys. fold S D in Hsys.
+  change (match S with [] => None | _ :: _ => match D with [] => None | _ :: _ => ?x end end) with x in Hsys.
+  destruct (parent_look t S) as [[| |]| | |]; try discriminate.
+  destruct (parent_look t D) as [[| |]| | |]; try discriminate.
+  destruct (kind_at t S) as [ks|] eqn:EkS; [|discriminate].
+  destruct (path_eqb S D) eqn:Eeq; [apply path_eqb_eq in Eeq; congruence|].
+  destruct (under S D) eqn:EuSD; [discriminate|].
+  assert (Ht' : t' = map (move_entry S D) (remove_entry t D)).
+  { destruct (kind_at t D) as [kd|] eqn:EkD; [|inversion Hsys; reflexivity].
+    destruct ks, kd; try discriminate; try congruence; inversion Hsys; reflexivity. }
+  rewrite (remove_entry_nondir t D Hwf HD HkD) in Ht'. subst t'.
+  assert (HuDS : under D S = false).
+  { destruct (under D S) eqn:E; [|reflexivity]. exfalso. apply under_iff in E. destruct E as [r2 Er].
+    destruct r2 as [|x r2]; [rewrite app_nil_r in Er; congruence|].
+    rewrite Er in EkS. rewrite (wf_ancestor t D (x :: r2) ks Hwf EkS) in HkD by discriminate. congruence. }
+  apply moved_source_gone; [discriminate | | exact EuSD | exact HuDS].
+  intros e He. apply filter_In in He. destruct He as [_ He]. unfold notunder in He. apply negb_true_iff in He. exact He.
+Qed.
+
 Theorem rename_wf : forall t s d c t', wf t -> p_rename t s d = Some (c, t') -> wf t'.
 Proof.
   intros t s d c t' Hwf H. destruct c.
